@@ -2,6 +2,7 @@ import QibModel.DriverMain
 import QibModel.BackendOps
 import QibModel.BackendSchedOps
 import QibModel.ValidateOps
+import QibModel.QobjFullOps
 open Lean Qib
 
 def backendDispatch : Dispatch := fun op j =>
@@ -15,6 +16,7 @@ def backendDispatch : Dispatch := fun op j =>
   | "wmi.counts" => some (Wmi.opCounts j)
   | "wmi.submit" => some (Wmi.opSubmit j)
   | "wmi.ctrlname" => some (Wmi.opCtrlName j)
+  | "wmi.options" | "wmi.qobjfull" | "wmi.qobjtables" => Wmi.Full.dispatch op j
   | _ => none
 
 def main : IO Unit := driverMain backendDispatch
